@@ -205,6 +205,33 @@ FAULTS = [
                      "Q->deeper(a)"],
      2, "rt", {"file": "mod:" + MODNAME, "line": 5,
                "stack": [("boom", ("mod:" + MODNAME, 7)), ("deeper", 2)]}),
+    # a source that cannot be iterated, in every iterating construct (and
+    # the same inside a function: the error keeps the line of the construct,
+    # the call only appears in the stack trace)
+    ("iter-for", ["def a = 5", "for x in a do x end", "a"], 1, "rt", {}),
+    ("iter-for-in-function", ["def a = 5", "def f(a) do for x in a do x end; 0 end", "def c = 1", "f(a)"], 1, "rt", {"stack": [("f", 3)]}),
+    ("iter-lc", ["def a = 5", "def b = [x for x in a]", "a"], 1, "rt", {}),
+    ("iter-lc-in-function", ["def a = 5", "def f(a) do def b = [x for x in a]; 0 end", "def c = 1", "f(a)"], 1, "rt", {"stack": [("f", 3)]}),
+    ("iter-lc-product-1", ["def a = 5", "def b = [[x, y] for x in a for y in [1]]", "a"], 1, "rt", {}),
+    ("iter-lc-product-1-in-function", ["def a = 5", "def f(a) do def b = [[x, y] for x in a for y in [1]]; 0 end", "def c = 1", "f(a)"], 1, "rt", {"stack": [("f", 3)]}),
+    ("iter-lc-product-2", ["def a = 5", "def b = [[x, y] for x in [1] for y in a]", "a"], 1, "rt", {}),
+    ("iter-lc-product-2-in-function", ["def a = 5", "def f(a) do def b = [[x, y] for x in [1] for y in a]; 0 end", "def c = 1", "f(a)"], 1, "rt", {"stack": [("f", 3)]}),
+    ("iter-lc-parallel-1", ["def a = 5", "def b = [[x, y] for x in a also for y in [1]]", "a"], 1, "rt", {}),
+    ("iter-lc-parallel-1-in-function", ["def a = 5", "def f(a) do def b = [[x, y] for x in a also for y in [1]]; 0 end", "def c = 1", "f(a)"], 1, "rt", {"stack": [("f", 3)]}),
+    ("iter-lc-parallel-2", ["def a = 5", "def b = [[x, y] for x in [1] also for y in a]", "a"], 1, "rt", {}),
+    ("iter-lc-parallel-2-in-function", ["def a = 5", "def f(a) do def b = [[x, y] for x in [1] also for y in a]; 0 end", "def c = 1", "f(a)"], 1, "rt", {"stack": [("f", 3)]}),
+    ("iter-sc", ["def a = 5", "def b = <<x for x in a>>", "a"], 1, "rt", {}),
+    ("iter-sc-in-function", ["def a = 5", "def f(a) do def b = <<x for x in a>>; 0 end", "def c = 1", "f(a)"], 1, "rt", {"stack": [("f", 3)]}),
+    ("iter-sc-product-2", ["def a = 5", "def b = <<[x, y] for x in [1] for y in a>>", "a"], 1, "rt", {}),
+    ("iter-sc-product-2-in-function", ["def a = 5", "def f(a) do def b = <<[x, y] for x in [1] for y in a>>; 0 end", "def c = 1", "f(a)"], 1, "rt", {"stack": [("f", 3)]}),
+    ("iter-sc-parallel-2", ["def a = 5", "def b = <<[x, y] for x in [1] also for y in a>>", "a"], 1, "rt", {}),
+    ("iter-sc-parallel-2-in-function", ["def a = 5", "def f(a) do def b = <<[x, y] for x in [1] also for y in a>>; 0 end", "def c = 1", "f(a)"], 1, "rt", {"stack": [("f", 3)]}),
+    ("iter-mc", ["def a = 5", "def b = <<<x => 1 for x in a>>>", "a"], 1, "rt", {}),
+    ("iter-mc-in-function", ["def a = 5", "def f(a) do def b = <<<x => 1 for x in a>>>; 0 end", "def c = 1", "f(a)"], 1, "rt", {"stack": [("f", 3)]}),
+    ("iter-spread", ["def a = 5", "def b = [0, ...a]", "a"], 1, "rt", {}),
+    ("iter-spread-in-function", ["def a = 5", "def f(a) do def b = [0, ...a]; 0 end", "def c = 1", "f(a)"], 1, "rt", {"stack": [("f", 3)]}),
+    ("iter-destructure", ["def a = 5", "def [p, q] = a", "a"], 1, "rt", {}),
+    ("iter-destructure-in-function", ["def a = 5", "def f(a) do def [p, q] = a; 0 end", "def c = 1", "f(a)"], 1, "rt", {"stack": [("f", 3)]}),
     ("stray-paren", ["def a = 1", "def b = )", "a"], 1, "syn", {}),
     ("missing-then", ["def a = 1", "if TRUE a", "a"], 1, "syn", {}),
     ("bad-def", ["def a = 1", "def 5 = 2", "a"], 1, "syn", {}),
